@@ -247,6 +247,25 @@ func runC09(res *Result, d *Driver, tier string, seed uint64) {
 			}
 		}
 	}
+	// back to back in one environment: a program whose main process ends while children of it are still alive (each holding
+	// memory, so that killing and collecting them takes a moment) is followed at once by the next program; both verdicts
+	// must be their own (the next program's status must not be collected by the clean-up of the previous run)
+	for fi, o := range []outcome{{true, 7}, {true, 0}, {false, 11}, {true, 200}, {false, 6}, {false, 24}} {
+		for _, nkids := range []int{4, 12} {
+			if tier != "thorough" && fi >= 3 && nkids == 4 {
+				continue
+			}
+			leader := strings.Repeat("fork;mem 48;sleep 60000;endfork;", nkids) + "sleep 200;exit 3"
+			follower := fmt.Sprintf("exit %d", o.n)
+			if !o.exited {
+				follower = fmt.Sprintf("raise %d;exit 99", o.n)
+			}
+			r1, _ := env.runProbe(RunSpec{Script: leader}, fi%2 == 0)
+			r2, _ := env.runProbe(RunSpec{Script: follower}, false)
+			check(fmt.Sprintf("container-leaves-%d-children", nkids), outcome{true, 3}, r1)
+			check(fmt.Sprintf("container-right-after-a-run-that-left-%d-children", nkids), o, r2)
+		}
+	}
 	// a cancellation that arrives AFTER the main process ended on its own (but before the tracer collected that event:
 	// the tracer is busy answering a child's trapped syscall) must not rewrite the verdict: exit code N stays exit code N
 	for _, code := range []int{0, 7, 255} {
